@@ -107,6 +107,13 @@ fn gen_options(rng: &mut Rng, s: &LSheet) -> Vec<HeaderRow> {
             break;
         }
     }
+    // rows that hold nothing but blank (valueless) cells
+    for (r, _) in &s.blanks {
+        if !rows.contains(r) {
+            cands.push(*r);
+            cands.push(*r);
+        }
+    }
     let k = rng.range(2, 7);
     let mut out = vec![];
     for _ in 0..k {
@@ -159,7 +166,15 @@ impl Case {
             })
             .collect();
         let opts: Vec<String> = self.options.iter().map(hdr_wire).collect();
-        format!("{} {} {} {}", self.fmt.name(), self.seed, if cells.is_empty() { "-".into() } else { cells.join(",") }, opts.join(","))
+        let blanks: Vec<String> = self.sheet.blanks.iter().map(|(r, c)| format!("{r}:{c}")).collect();
+        format!(
+            "{} {} {} {}{}",
+            self.fmt.name(),
+            self.seed,
+            if cells.is_empty() { "-".into() } else { cells.join(",") },
+            opts.join(","),
+            if blanks.is_empty() { String::new() } else { format!(" {}", blanks.join(",")) }
+        )
     }
     fn parse(s: &str) -> Case {
         let p: Vec<&str> = s.split(' ').collect();
@@ -173,6 +188,12 @@ impl Case {
                     _ => V::Bool(&q[2][1..] == "1"),
                 };
                 sheet.cells.insert((q[0].parse().unwrap(), q[1].parse().unwrap()), v);
+            }
+        }
+        if let Some(b) = p.get(4) {
+            for c in b.split(',') {
+                let (r, c) = c.split_once(':').unwrap();
+                sheet.blanks.insert((r.parse().unwrap(), c.parse().unwrap()));
             }
         }
         let options = p[3]
@@ -311,7 +332,9 @@ fn main() {
     let mut rep = Report::new(
         "C08",
         "generated single-sheet workbooks (0..30 simple cells in a window of <=40x12 placed anywhere the format \
-         allows, with empty rows inside) in xls/xlsx/xlsb/ods, each read under 2..7 header-row options drawn from \
+         allows, with empty rows inside; one sheet in three also stores blank valueless cells (BLANK / <c s=/> / \
+         BrtCellBlank / empty table-cell), some on rows of their own, which are option candidates; xlsx <dimension> \
+         accurate / absent / unrelated / a large stale one that under- or overstates the last row) in xls/xlsx/xlsb/ods, each read under 2..7 header-row options drawn from \
          {default, 0, first-1, first, a gap row, last, last+1, 2^20, u32::MAX-1, u32::MAX, random near the data}, options \
          interleaved and changed back; each read checked against the property oracle (emptiness, start row = n, \
          every value at row >= n equals the sheet's, nothing from rows < n) and the Lean windowing model; \
